@@ -216,7 +216,18 @@ def clause_ab(facts, rep, pol):
 
 
 def eval_align_buffer(f, ubuf, size):
-    """interpret AlignBuffer(buf, size&) : returns (ret pointer, new size)"""
+    """interpret AlignBuffer(buf, size&) : returns (ret pointer, new size) - by the general CFG interpreter when it can
+    (any spelling: named locals, early returns), by the original mini-evaluator (which knows std::align) otherwise"""
+    try:
+        from ..minterp import Interp, Unsupported as _U, UndefinedBehaviour as _UB
+        try:
+            r_ = Interp(f, getattr(f, 'facts', None), max_steps=400).run({f.params[0]['id']: ubuf, f.params[1]['id']: size}, {})
+            if isinstance(r_[0], int) and isinstance(r_[1].get(f.params[1]['id']), int):
+                return r_[0], r_[1][f.params[1]['id']]
+        except (_U, _UB):
+            pass
+    except ImportError:
+        pass
     env = {f.params[0]['id']: ubuf, f.params[1]['id']: size}
     M = 2 ** 64 - 1
 
@@ -779,7 +790,7 @@ def clause_pool_model(facts, rep, tier):
     nseq = 0
     try:
         for pname, pf in sorted(pol.items()):
-            for user in (0, 40):
+            for user in (0, 40, 44):
                 for d in range(1, depth + 1):
                     for ops in itertools.product(alphabet, repeat=d):
                         if ops[0][0] != 'malloc':
@@ -790,7 +801,7 @@ def clause_pool_model(facts, rep, tier):
                         except UndefinedBehaviour as ux:
                             r = 'undefined behaviour: %s' % ux
                         if r:
-                            bad = '%s, %s, operations %s: %s' % (pname, 'user buffer of 40 bytes' if user else 'heap pool', list(ops), r)
+                            bad = '%s, %s, operations %s: %s' % (pname, ('user buffer of %d bytes' % user) if user else 'heap pool', list(ops), r)
                             break
                     if bad:
                         break
@@ -802,7 +813,7 @@ def clause_pool_model(facts, rep, tier):
         if bad is None and depth < 3:
             firsts = [('malloc', n) for n in (1, 24, 40, 64, 65)] + [('realloc', 'last', 'grow3')]
             for pname, pf in sorted(pol.items()):
-                for user in (0, 40):
+                for user in (0, 40, 44):
                     for a_, b_ in itertools.product(firsts, repeat=2):
                         if a_[0] != 'malloc':
                             continue
@@ -813,7 +824,7 @@ def clause_pool_model(facts, rep, tier):
                             except UndefinedBehaviour as ux:
                                 r = 'undefined behaviour: %s' % ux
                             if r:
-                                bad = '%s, %s, operations %s: %s' % (pname, 'user buffer of 40 bytes' if user else 'heap pool', [a_, b_, c_], r)
+                                bad = '%s, %s, operations %s: %s' % (pname, ('user buffer of %d bytes' % user) if user else 'heap pool', [a_, b_, c_], r)
                                 break
                         if bad:
                             break
@@ -824,7 +835,7 @@ def clause_pool_model(facts, rep, tier):
         # a few longer histories: fill a chunk exactly, spill, clear, reuse
         if bad is None:
             for pname, pf in sorted(pol.items()):
-                for user in (0, 40):
+                for user in (0, 40, 44):
                     for ops in ([('malloc', 40), ('malloc', 24), ('realloc', 'last', 'fit'), ('malloc', 8), ('clear',), ('malloc', 40), ('realloc', 'last', 'grow8')],
                                 [('malloc', 8), ('malloc', 200), ('malloc', 8), ('realloc', 'first', 'big'), ('clear',), ('malloc', 64), ('malloc', 1)],
                                 [('malloc', 64), ('realloc', 'last', 'fit+8'), ('realloc', 'last', 'fit'), ('malloc', 65), ('realloc', 'first', 'grow8'), ('clear',), ('malloc', 9)]):
@@ -834,7 +845,7 @@ def clause_pool_model(facts, rep, tier):
                         except UndefinedBehaviour as ux:
                             r = 'undefined behaviour: %s' % ux
                         if r and bad is None:
-                            bad = '%s, %s, operations %s: %s' % (pname, 'user buffer of 40 bytes' if user else 'heap pool', list(ops), r)
+                            bad = '%s, %s, operations %s: %s' % (pname, ('user buffer of %d bytes' % user) if user else 'heap pool', list(ops), r)
     except Unsupported as ex:
         raise AnalysisBroken('C16: the pool model cannot interpret the allocator: %s' % ex)
     rep.extra['pool_sequences_explored'] = nseq
@@ -860,7 +871,7 @@ def run(rep, tier):
     except AnalysisBroken as ex:
         rep.broken.append(str(ex))
     # the shape rules on the pool are decided together with the exploration that interprets the same functions
-    for r_ in ('E2.bump-in-chunk', 'E2.bump-aligned', 'E2.realloc', 'E2.zero-size', 'E5.align-buffer'):
+    for r_ in ('E2.bump-in-chunk', 'E2.bump-aligned', 'E2.realloc', 'E2.zero-size'):
         rep.corroborate(r_, 'E6.pool')
     for pre_ in ('C16.a:', 'C16.b:', 'C16.c:', 'C16.d:', 'C16:'):
         rep.corroborate_floor(pre_, 'E6.pool')
